@@ -127,6 +127,7 @@ type loopInfo struct {
 type Exec struct {
 	loopBody map[*ssa.BasicBlock]bool // body of the loop whose head is being havocked (nil: a call)
 	beforeHits map[int]int // before clause index -> number of calls it applied to
+	pruned     int         // branches dropped in a variant run (infeasible under the variant's assumption)
 	chanHits map[string]int // before_send / assume_recv clause -> number of communications it applied to
 	atReturnHits map[int]int // at_return clause index -> number of returns it was evaluated at
 	callExcept []string // the same for the call being havocked for
@@ -868,6 +869,11 @@ func (e *Exec) run(fn *ssa.Function, st0 *State, fc *FuncContract) []Exit {
 				} else {
 					ns.pc = e.sc.define("pc", "Bool", and(st.pc, not(c)))
 				}
+				if e.sct.assume != "" && fn == e.fn && !e.feasible(ns.pc) {
+					// a variant run: the branch contradicts the variant's assumption - its code is not
+					// part of this run (it is part of the variant it belongs to; the variants cover all inputs)
+					continue
+				}
 				e.route(fn, fc, n, s, ns, succTarget(n, s), incoming)
 			}
 		case *ssa.Jump:
@@ -876,6 +882,26 @@ func (e *Exec) run(fn *ssa.Function, st0 *State, fc *FuncContract) []Exit {
 		}
 	}
 	return exits
+}
+
+// feasible: can the path condition hold? Asked of the solver (2 s) in variant runs only, to drop the
+// arms of a switch that belong to other variants. "unsat" is the only answer that prunes.
+func (e *Exec) feasible(pc string) bool {
+	if pc == "false" {
+		return false
+	}
+	var b strings.Builder
+	for _, l := range e.sc.lines {
+		b.WriteString(l)
+		b.WriteByte('\n')
+	}
+	fmt.Fprintf(&b, "(assert %s)\n(check-sat)\n", pc)
+	r := runSolver(solvers[0], b.String(), 2)
+	if r.Status == "unsat" {
+		e.pruned++
+		return false
+	}
+	return true
 }
 
 type target struct {
